@@ -93,6 +93,10 @@ func c04Generate(rng *rand.Rand) c04Prog {
 		// places uses of a[i] only there, so the program should be accepted; where the compiler
 		// is more conservative it may still reject with T0028 (allowed). noAssign: inside a loop
 		// body that must leave i alone.
+		wild := rng.IntN(2) == 0
+		if wild {
+			out.scenario = "random-flow-with-unknown-index-uses"
+		}
 		var flow func(depth int, known, noAssign bool) (ss []gen.Stmt, knownAfter, mod bool)
 		flow = func(depth int, known, noAssign bool) ([]gen.Stmt, bool, bool) {
 			var ss []gen.Stmt
@@ -108,7 +112,11 @@ func c04Generate(rng *rand.Rand) c04Prog {
 				}
 				switch c {
 				case 0, 1, 2:
-					if !known {
+					if !known && wild && rng.IntN(2) == 0 {
+						// a use where no sound analysis knows i: the compiler must reject the
+						// program (T0028) or index dynamically; a stale constant shows up as a
+						// wrong element
+					} else if !known {
 						if noAssign {
 							continue
 						}
@@ -307,14 +315,23 @@ func c04Generate(rng *rand.Rand) c04Prog {
 
 func checkC04(c *Ctx) error {
 	r := c.R
-	r.Rule = "generated programs over [N]T (N 2-6, all integer element widths) whose index is a literal, a const, a let-bound variable reassigned between uses, assigned in one branch / match arm, loop-carried, incremented, modified through &' or by a closure, computed by index arithmetic or returned by a function; canary locals around the array; reference interpreter with dynamic index semantics. Allowed: compile-time rejection with T0028/T0009 (never for literal/const in-range programs), or output == reference, or a panic exactly where the reference panics. non-trivial = a distinct program whose verdict was decided (accepted-and-equal, or rejected for the permitted reason)"
+	r.Rule = "generated programs over [N]T (N 2-6, all integer element widths) whose index is a literal, a const, a let-bound variable reassigned between uses, assigned in one branch / match arm, loop-carried, incremented, modified through &' or by a closure, computed by index arithmetic or returned by a function, uses at points where no sound analysis knows the index; plus a directed matrix {20 containers that modify the index: plain, if/else/else-if, match arm/default, block, &' call, catch handler, closure, inner loops, compound, ++, nestings, assignment in one branch while the other branch leaves by continue/break/return} x {6 use positions: after, loop-carried before/after in while/for, in a later branch, in a later closure} x {modification taken, not taken}; canary locals around the array; reference interpreter with dynamic index semantics. Allowed: compile-time rejection with T0028/T0009 (never for literal/const in-range programs), or output == reference, or a panic exactly where the reference panics. non-trivial = a distinct program whose verdict was decided (accepted-and-equal, or rejected for the permitted reason)"
 	r.Assumptions = []string{"a rejection is attributed to the array rule only if every error diagnostic is T0028 or T0009"}
 	n := c.N(60, 1500)
 	runProbes(c, "C04", core.Native)
-	core.ParDo(n, 5, func(i int) {
-		cp := c04Generate(r.Rng(i))
+	matrix := c04Matrix()
+	core.ParDo(n+len(matrix), 5, func(i int) {
+		var cp c04Prog
+		var id string
+		if i < n {
+			cp = c04Generate(r.Rng(i))
+			id = fmt.Sprintf("gen:%d:%d", c.Env.Seed, i)
+		} else {
+			cp = matrix[i-n]
+			id = fmt.Sprintf("%s:%d", cp.scenario, (i-n)%2)
+			r.Count("matrix_programs", 1)
+		}
 		src := cp.p.Source()
-		id := fmt.Sprintf("gen:%d:%d", c.Env.Seed, i)
 		exp := gen.Run(cp.p)
 		r.Eval()
 		if exp.Internal != "" || exp.Timeout || exp.FellOff != "" {
@@ -369,4 +386,170 @@ func checkC04(c *Ctx) error {
 	})
 	_ = strings.Join
 	return nil
+}
+
+// c04Containers are the syntactic places in which the index variable is modified.
+var c04Containers = []string{"plain", "if-then", "if-else", "else-if", "match-arm", "match-default", "block", "mutref-call", "catch-handler", "closure", "inner-while", "inner-for", "compound", "incdec", "match-in-if", "if-in-match", "if-assign-else-jump", "if-jump-else-assign", "match-assign-default-jump", "match-jump-default-assign"}
+
+// c04Wrappers are the positions of the use relative to the modification.
+var c04Wrappers = []string{"straight-use-after", "while-use-before", "for-use-before", "while-use-after", "use-in-branch-after", "use-in-closure-after"}
+
+// c04MatrixProgram builds one directed program: index variable i starts at a known constant, a
+// container modifies it (when the opaque selector is 0), and the array is read through i at a
+// position where only a flow analysis that accounts for that container gets the value right.
+func c04MatrixProgram(container, wrapper string, selVal int64, variant int) c04Prog {
+	I32, I64 := gen.I32, gen.I64
+	lit := func(t *gen.Type, v int64) *gen.Lit { return &gen.Lit{T: t, I: gen.Norm(t, v)} }
+	n := 4
+	elemT := []*gen.Type{gen.I32, gen.I64, gen.U8, gen.I16}[variant%4]
+	arrT := &gen.Type{K: gen.KArr, N: n, Elem: elemT}
+	a := &gen.Var{Name: "a", T: arrT}
+	prog := &gen.Program{Features: map[string]bool{}}
+	var main []gen.Stmt
+	main = append(main, &gen.Let{Name: "c0", T: I64, Init: lit(I64, 0x1111111111111111), Annot: true})
+	al := &gen.ArrLit{T: arrT}
+	for k := 0; k < n; k++ {
+		al.Elems = append(al.Elems, lit(elemT, int64(10*(k+1)+k)))
+	}
+	main = append(main, &gen.Let{Name: "a", T: arrT, Init: al, Annot: true})
+	main = append(main, &gen.Let{Name: "c1", T: I64, Init: lit(I64, 0x2222222222222222), Annot: true})
+	tn := 0
+	readAt := func(idx gen.Expr) []gen.Stmt {
+		tn++
+		name := fmt.Sprintf("t%d", tn)
+		return []gen.Stmt{&gen.Let{Name: name, T: elemT, Init: &gen.Index{X: a, I: idx, T: elemT}, Annot: true}, &gen.Print{X: &gen.Var{Name: name, T: elemT}}}
+	}
+	i := &gen.Var{Name: "i", T: I32}
+	v1, v2 := int64(variant%2), int64(2+variant%2) // i starts at 0/1 and is moved to 2/3
+	rt := &gen.Type{K: gen.KRef, Elem: I32, Mut: true}
+	setidx := &gen.Func{Name: "setidx", Params: []gen.Param{{Name: "r", T: rt}, {Name: "v", T: I32}}, Ret: gen.TVoid,
+		Body: []gen.Stmt{&gen.Assign{LHS: &gen.Var{Name: "r", T: rt}, Op: "=", RHS: &gen.Var{Name: "v", T: I32}}}}
+	opq := &gen.Func{Name: "opq", Params: []gen.Param{{Name: "v", T: I32}}, Ret: I32, Body: []gen.Stmt{&gen.Return{X: &gen.Var{Name: "v", T: I32}}}}
+	mayFail := &gen.Func{Name: "mayFail", Params: []gen.Param{{Name: "v", T: I32}}, Ret: I32, ErrStr: true, Body: []gen.Stmt{
+		&gen.If{Cond: &gen.Bin{Op: "==", L: &gen.Var{Name: "v", T: I32}, R: lit(I32, 0), T: gen.TBool}, Then: []gen.Stmt{&gen.ReturnErr{Msg: "zero"}}},
+		&gen.Return{X: &gen.Var{Name: "v", T: I32}}}}
+	prog.Funcs = append(prog.Funcs, opq)
+	main = append(main, &gen.Let{Name: "i", T: I32, Init: lit(I32, v1)})
+	main = append(main, &gen.Let{Name: "sel", T: I32, Init: &gen.Call{Fn: opq, Args: []gen.Expr{lit(I32, selVal)}}, Annot: true})
+	sel := &gen.Var{Name: "sel", T: I32}
+	selIs := func(v int64) gen.Expr { return &gen.Bin{Op: "==", L: sel, R: lit(I32, v), T: gen.TBool} }
+	set := func() gen.Stmt { return &gen.Assign{LHS: i, Op: "=", RHS: lit(I32, v2)} }
+	// the jump that leaves the enclosing construct: continue in a for loop, break in a while loop,
+	// return from main otherwise
+	jump := func() gen.Stmt {
+		switch wrapper {
+		case "for-use-before":
+			return &gen.Continue{}
+		case "while-use-before", "while-use-after":
+			return &gen.Break{}
+		}
+		return &gen.Return{}
+	}
+	var pre []gen.Stmt // declarations the container needs before the wrapper
+	var mod []gen.Stmt
+	switch container {
+	case "plain":
+		mod = []gen.Stmt{set()}
+	case "if-then":
+		mod = []gen.Stmt{&gen.If{Cond: selIs(0), Then: []gen.Stmt{set()}}}
+	case "if-else":
+		mod = []gen.Stmt{&gen.If{Cond: selIs(1), Then: []gen.Stmt{&gen.Print{X: sel}}, Else: []gen.Stmt{set()}}}
+	case "else-if":
+		mod = []gen.Stmt{&gen.If{Cond: selIs(1), Then: []gen.Stmt{&gen.Print{X: sel}}, Else: []gen.Stmt{&gen.If{Cond: selIs(0), Then: []gen.Stmt{set()}}}}}
+	case "match-arm":
+		mod = []gen.Stmt{&gen.Match{Subj: sel, HasDef: true, Arms: []gen.MatchArm{{Pat: lit(I32, 0), Body: []gen.Stmt{set()}}}, Default: []gen.Stmt{}}}
+	case "match-default":
+		mod = []gen.Stmt{&gen.Match{Subj: sel, HasDef: true, Arms: []gen.MatchArm{{Pat: lit(I32, 1), Body: []gen.Stmt{&gen.Print{X: sel}}}}, Default: []gen.Stmt{set()}}}
+	case "block":
+		mod = []gen.Stmt{&gen.Block{Body: []gen.Stmt{set()}}}
+	case "mutref-call":
+		prog.Funcs = append(prog.Funcs, setidx)
+		mod = []gen.Stmt{&gen.ExprStmt{X: &gen.Call{Fn: setidx, Args: []gen.Expr{&gen.Borrow{Mut: true, X: i}, lit(I32, v2)}}}}
+	case "catch-handler":
+		prog.Funcs = append(prog.Funcs, mayFail)
+		mod = []gen.Stmt{&gen.Let{Name: "cv", T: I32, Annot: true, Init: &gen.Catch{Call: &gen.Call{Fn: mayFail, Args: []gen.Expr{sel}}, ErrVar: "er", Handler: []gen.Stmt{set()}, Fallback: lit(I32, 7)}}}
+	case "closure":
+		cl := &gen.Closure{Params: []gen.Param{{Name: "y", T: I32}}, Ret: I32, Body: []gen.Stmt{set(), &gen.Return{X: &gen.Var{Name: "y", T: I32}}}}
+		pre = []gen.Stmt{&gen.LetClosure{Name: "step", C: cl}}
+		mod = []gen.Stmt{&gen.Let{Name: "u", T: I32, Init: &gen.ClosureCall{Name: "step", C: cl, Args: []gen.Expr{lit(I32, 0)}}, Annot: true}}
+	case "inner-while":
+		w := &gen.Var{Name: "iw", T: I32}
+		mod = []gen.Stmt{&gen.Let{Name: "iw", T: I32, Init: lit(I32, 0), Annot: true},
+			&gen.While{Cond: &gen.Bin{Op: "<", L: w, R: lit(I32, 1), T: gen.TBool}, Body: []gen.Stmt{set(), &gen.Assign{LHS: w, Op: "=", RHS: &gen.Bin{Op: "+", L: w, R: lit(I32, 1), T: I32}}}}}
+	case "inner-for":
+		mod = []gen.Stmt{&gen.Let{Name: "flo", T: I32, Init: lit(I32, 0), Annot: true}, &gen.Let{Name: "fhi", T: I32, Init: lit(I32, 1), Annot: true},
+			&gen.ForRange{Var: "fq", T: I32, Lo: &gen.Var{Name: "flo", T: I32}, Hi: &gen.Var{Name: "fhi", T: I32}, Body: []gen.Stmt{set()}}}
+	case "compound":
+		mod = []gen.Stmt{&gen.Assign{LHS: i, Op: "+=", RHS: lit(I32, 1)}}
+	case "incdec":
+		mod = []gen.Stmt{&gen.IncDec{X: i, Inc: true}}
+	case "match-in-if":
+		mod = []gen.Stmt{&gen.If{Cond: selIs(0), Then: []gen.Stmt{&gen.Match{Subj: sel, HasDef: true, Arms: []gen.MatchArm{{Pat: lit(I32, 0), Body: []gen.Stmt{set()}}}, Default: []gen.Stmt{}}}}}
+	case "if-assign-else-jump":
+		mod = []gen.Stmt{&gen.If{Cond: selIs(0), Then: []gen.Stmt{set()}, Else: []gen.Stmt{jump()}}}
+	case "if-jump-else-assign":
+		mod = []gen.Stmt{&gen.If{Cond: selIs(1), Then: []gen.Stmt{jump()}, Else: []gen.Stmt{set()}}}
+	case "match-assign-default-jump":
+		mod = []gen.Stmt{&gen.Match{Subj: sel, HasDef: true, Arms: []gen.MatchArm{{Pat: lit(I32, 0), Body: []gen.Stmt{set()}}}, Default: []gen.Stmt{jump()}}}
+	case "match-jump-default-assign":
+		mod = []gen.Stmt{&gen.Match{Subj: sel, HasDef: true, Arms: []gen.MatchArm{{Pat: lit(I32, 1), Body: []gen.Stmt{jump()}}}, Default: []gen.Stmt{set()}}}
+	case "if-in-match":
+		mod = []gen.Stmt{&gen.Match{Subj: sel, HasDef: true, Arms: []gen.MatchArm{{Pat: lit(I32, 0), Body: []gen.Stmt{&gen.If{Cond: selIs(0), Then: []gen.Stmt{set()}}}}}, Default: []gen.Stmt{}}}
+	}
+	main = append(main, pre...)
+	k := &gen.Var{Name: "k", T: I32}
+	kInc := &gen.Assign{LHS: k, Op: "=", RHS: &gen.Bin{Op: "+", L: k, R: lit(I32, 1), T: I32}}
+	kLt := &gen.Bin{Op: "<", L: k, R: lit(I32, 2), T: gen.TBool}
+	switch wrapper {
+	case "straight-use-after":
+		main = append(main, readAt(i)...)
+		main = append(main, mod...)
+		main = append(main, readAt(i)...)
+	case "while-use-before":
+		main = append(main, &gen.Let{Name: "k", T: I32, Init: lit(I32, 0), Annot: true})
+		body := append(readAt(i), mod...)
+		body = append(body, kInc)
+		main = append(main, &gen.While{Cond: kLt, Body: body})
+	case "for-use-before":
+		main = append(main, &gen.Let{Name: "lo", T: I32, Init: lit(I32, 0), Annot: true}, &gen.Let{Name: "hi", T: I32, Init: lit(I32, 2), Annot: true})
+		body := append(readAt(i), mod...)
+		main = append(main, &gen.ForRange{Var: "q", T: I32, Lo: &gen.Var{Name: "lo", T: I32}, Hi: &gen.Var{Name: "hi", T: I32}, Body: body})
+	case "while-use-after":
+		main = append(main, &gen.Let{Name: "k", T: I32, Init: lit(I32, 0), Annot: true})
+		body := append(append([]gen.Stmt{}, mod...), readAt(i)...)
+		body = append(body, kInc)
+		main = append(main, &gen.While{Cond: kLt, Body: body})
+		main = append(main, readAt(i)...)
+	case "use-in-branch-after":
+		main = append(main, mod...)
+		main = append(main, &gen.If{Cond: &gen.Bin{Op: "<", L: sel, R: lit(I32, 5), T: gen.TBool}, Then: readAt(i)})
+	case "use-in-closure-after":
+		main = append(main, mod...)
+		cl := &gen.Closure{Params: []gen.Param{{Name: "z", T: I32}}, Ret: elemT, Body: []gen.Stmt{&gen.Return{X: &gen.Index{X: a, I: i, T: elemT}}}}
+		main = append(main, &gen.LetClosure{Name: "peek", C: cl})
+		main = append(main, &gen.Let{Name: "pv", T: elemT, Init: &gen.ClosureCall{Name: "peek", C: cl, Args: []gen.Expr{lit(I32, 0)}}, Annot: true}, &gen.Print{X: &gen.Var{Name: "pv", T: elemT}})
+	}
+	for q := 0; q < n; q++ {
+		main = append(main, readAt(lit(I32, int64(q)))...)
+	}
+	main = append(main, &gen.Print{X: &gen.Var{Name: "c0", T: I64}}, &gen.Print{X: &gen.Var{Name: "c1", T: I64}})
+	prog.Main = main
+	return c04Prog{p: prog, scenario: "matrix:" + container + "/" + wrapper}
+}
+
+func c04Matrix() []c04Prog {
+	var out []c04Prog
+	v := 0
+	for _, co := range c04Containers {
+		for _, w := range c04Wrappers {
+			if co == "closure" && w == "use-in-closure-after" {
+				continue // two closures capturing one variable: open finding kf-C01-closure-nested (gated feature)
+			}
+			for _, s := range []int64{0, 2} {
+				out = append(out, c04MatrixProgram(co, w, s, v))
+				v++
+			}
+		}
+	}
+	return out
 }
